@@ -133,6 +133,16 @@ pub fn case(cx: &mut Case) -> CaseResult {
     let (pb0, wb0) = redeem.to_vec_with_witness();
     cx.fp.write(&pb0);
     cx.fp.write(&wb0);
+    // Half of the programs are pruned as built (pointer structure = the IR's sharing), the other
+    // half after a trip through their own serialisation (maximally shared, as a program that
+    // was decoded from a transaction is).
+    // (decided by a hash of the serialisation, not by a stream byte: replay files stay valid)
+    let redeem = if { let mut h = Fnv::new(); h.write(&pb0); h.write(&wb0); h.finish() } & 2 == 0 {
+        cx.label("program decoded from its serialisation before pruning");
+        decode_redeem(Family::Elements, &pb0, &wb0).map_err(|e| format!("the program's own serialisation does not decode: {}; program {}", e, prog.render()))?
+    } else {
+        redeem
+    };
     // semantics
     let cmrs = prog.model_cmrs();
     let model = run_model(&prog, &cmrs, &wit.model, &RVal::Unit);
